@@ -882,7 +882,7 @@ func (o *c11Out) emit(cfg c11Cfg, res *c11Result) {
 		o.hist["some access blocked"]++
 	}
 	if res.tag {
-		o.hist["F6 precondition (write-locked entry left the map / writer on a temporary copy)"]++
+		o.hist["entry of a write-held cache left the map / writer on a temporary copy (tag F6pre; harmless since 2d185e4)"]++
 	}
 	if len(cfg.envs) > 0 {
 		o.hist["with Release events"]++
